@@ -422,6 +422,14 @@ func c16Apply(s *c16State, e c16Ev) {
 			s.setWant("a", 4, []string{"10.0.0.1"})
 			s.setWant("b", 4, []string{"10.0.0.0/24"})
 		}
+		if strings.Contains(e.Init, "synced") {
+			s.cycle(false, nil, "init")
+		}
+		if strings.Contains(e.Init, "filter-b") {
+			// set a is programmed and then filtered out: still in the kernel, no longer needed
+			s.filter = map[string]bool{"b": true}
+			s.applyFilter()
+		}
 	case "set":
 		s.setWant(e.ID, e.Max, e.M)
 	case "addm":
@@ -543,7 +551,11 @@ func c16Reduce(pts []c16Fault, r *c16RecCmd) []c16Fault {
 
 func c16Enabled(s *c16State, depth int) []c16Ev {
 	if depth == 0 {
-		return []c16Ev{{Op: "init", Init: "clean"}, {Op: "init", Init: "clean+want"}, {Op: "init", Init: "stale"}, {Op: "init", Init: "stale+want"}}
+		inits := []c16Ev{{Op: "init", Init: "clean"}, {Op: "init", Init: "clean+want"}, {Op: "init", Init: "stale"}, {Op: "init", Init: "stale+want"}}
+		if s.cfg.Filter {
+			inits = append(inits, c16Ev{Op: "init", Init: "clean+want+synced+filter-b"})
+		}
+		return inits
 	}
 	var evs []c16Ev
 	add := func(e c16Ev) { evs = append(evs, e) }
